@@ -224,8 +224,8 @@ def plan(prop, tier):
             mm = [(t, "map-map", "plain") for t in ptypes]
             ss = [(t, "set-set", "plain") for t in (["u32"] if q else ptypes)]
             return [PairJob("c19_cc", IR, IR, ops, 2, 2, targets=mm, vals_a="{1,2}", vals_b="{1,2}"),
-                    PairJob("c19_lc", IRK, IR, ops, n, 1 if q else 2, targets=mm, vals_a="{1,2}", vals_b="{1,2}"),
-                    PairJob("c19_cl", IR, IRK, ops, 1 if q else 2, n, targets=mm, vals_a="{1,2}", vals_b="{1,2}"),
+                    PairJob("c19_lc", IRK, IR, ops, 2, 1 if q else 2, nodes_a=99 if q else 5, targets=mm, vals_a="{1,2}", vals_b="{1,2}", timeout=2400),
+                    PairJob("c19_cl", IR, IRK, ops, 1 if q else 2, 2, nodes_b=99 if q else 5, targets=mm, vals_a="{1,2}", vals_b="{1,2}", timeout=2400),
                     PairJob("c19_sets", IRK, IR, ops, 2, 2 if q else 3, targets=ss, vals_a="{1}", vals_b="{1}"),
                     # equality must not depend on how the contents came about, in particular not on the
                     # cached counter that TrieViewMut::set / remove leave behind (finding F4)
